@@ -30,6 +30,37 @@ theorem C13_reload_eq_fresh (c₀ : List Backend) (cs : List (List Backend)) (sc
     getBackend (runReloads c₀ cs) scheme host url = getBackend (fresh (finalCfg c₀ cs)) scheme host url :=
   getBackend_congr _ _ (fun h => tget_foldl_reload cs c₀ (fresh c₀) (fun _ => rfl) h) scheme host url
 
+/-! At the level of configuration files (ids string, sections): -/
+
+def runRawReloads (c₀ : RawCfg) (cs : List RawCfg) : Table := cs.foldl reloadRaw (fresh (normalise c₀))
+
+def finalRaw : RawCfg → List RawCfg → RawCfg
+  | c, [] => c
+  | _, c :: cs => finalRaw c cs
+
+theorem reloadRaw_eq (t : Table) (c : RawCfg) : reloadRaw t c = reload t (normalise c) := by
+  simp [reloadRaw, Generated.Backends.reloadIgnoresEmptyIds]
+
+/-- For every chain of configuration files in "backends" mode — including files whose `backends`
+value is empty or lists only incomplete entries — every lookup is answered as by a server freshly
+started from the last file. -/
+theorem C13_reload_raw_eq_fresh (c₀ : RawCfg) (cs : List RawCfg) (p : Probe) :
+    lookup (runRawReloads c₀ cs) p = lookup (fresh (normalise (finalRaw c₀ cs))) p := by
+  have h : ∀ (cs : List RawCfg) (c₀ : RawCfg) (t : Table), (∀ h, tget t h = tget (fresh (normalise c₀)) h) →
+      ∀ h, tget (cs.foldl reloadRaw t) h = tget (fresh (normalise (finalRaw c₀ cs))) h := by
+    intro cs
+    induction cs with
+    | nil => intro c₀ t ht h; exact ht h
+    | cons c cs ih =>
+      intro c₀ t _ h
+      exact ih c (reloadRaw t c) (fun h => by rw [reloadRaw_eq]; exact tget_reload t _ h) h
+  unfold lookup runRawReloads
+  rw [getBackend_congr _ _ (h cs c₀ (fresh (normalise c₀)) (fun _ => rfl))]
+
+/-- On the pinned tree a file without backends was skipped: the old backends stayed accepted. -/
+example (t : Table) (c : RawCfg) (h : c.ids = "") : (if true && c.ids = "" then t else reload t (normalise c)) = t := by
+  simp [h]
+
 /-- Reloading cannot fail: `reload?` models `Reload` with an `UpsertHost` that may panic (`none`);
 with the code's current `UpsertHost` it always returns, for every table and configuration. -/
 theorem C13_reload_total (t : Table) (bs : List Backend) : (reload? t bs).isSome = true := by
@@ -215,12 +246,13 @@ open SigModel.Generated.Backends in
 /-- The facts read from the source that the lookup model is defined over: `https` always, `http`
 only for backends configured with an http url, nothing else; first matching entry wins; prefix
 test on the url with a trailing slash; urls with "." / ".." segments are refused before the
-storage is asked; `Reload` acts in "backends" mode only; and no lock user
+storage is asked; `Reload` is refused in compat mode and does not skip a file without backends; and no lock user
 outside the modelled entry points. -/
 theorem C13_facts :
     schemeHttps = "true" ∧ schemeHttp = "allowHttp" ∧ schemeOther = "false" ∧
     lookupFirstMatchWins = true ∧ lookupUsesHasPrefix = true ∧ lookupAppendsSlash = true ∧
-    lookupRefusesDotSegments = true ∧ reloadOnlyInBackendsMode = true ∧ unreachedLockUsers = [] := by decide
+    lookupRefusesDotSegments = true ∧ reloadCompatGuard = true ∧ reloadIgnoresEmptyIds = false ∧
+    unreachedLockUsers = [] := by decide
 
 /-- The extracted scheme rule is the statement's: https always, http only where configured. -/
 theorem C13_scheme_rule (b : Backend) (scheme : String) :
